@@ -57,6 +57,12 @@ def _q15(ea, eb, ec, all_, force, pi, answer, pr_i, lnk, hashing):
             del w.vfs.files[ROOT + "/a"]
             w.vfs.add("/vfs/cache/real_a", 2, "unrelated file in a cache")
             w.vfs.links[ROOT + "/a"] = "/vfs/cache/real_a"
+        if sh.get("cwd"):
+            # gwf is invoked from a sub-directory of the project (it finds workflow.py by walking up); files with the outputs' relative names live there too
+            w.vfs.cwd = ROOT + "/" + sh["cwd"]
+            w.vfs.dirs.add(w.vfs.cwd)
+            for rel in ("a", "b", "c"):
+                w.file(sh["cwd"] + "/" + rel, 2, "a file of the sub-directory, not an output")
         w.file("notes.txt", 1, "unrelated")
         w.file(".gwf/logs/A.stdout", 1, "log")
         w.file("b.bak", 1, "looks like an output")
@@ -125,9 +131,11 @@ def q15(ea: bool, eb: bool, ec: bool, all_: bool, force: bool, pi: int, answer: 
 
 QUERIES = [
     {"name": "Q15", "fn": q15,
-     "shards": {"quick": [{"shape": "chain3", "pi": k, "pr": r} for k in range(len(PATS)) for r in (0, 1, 2, 4)] + [{"shape": "fork3", "pi": 0, "pr": r} for r in (0, 2)] + [{"shape": "dir-output", "pi": p_, "pr": 0} for p_ in (0, 1, 3)] + [{"shape": "chain3", "pi": p_, "pr": r, "empty_b": True} for p_, r in ((0, 0), (2, 0), (3, 1))],
-                "thorough": [{"shape": s, "pi": k, "pr": r} for s in ("chain3", "fork3", "two-ends", "dir-output") for k in range(len(PATS)) for r in range(len(PROTECT))]},
+     "shards": {"quick": [{"shape": "chain3", "pi": k, "pr": r} for k in range(len(PATS)) for r in (0, 1, 2, 4)] + [{"shape": "fork3", "pi": 0, "pr": r} for r in (0, 2)] + [{"shape": "dir-output", "pi": p_, "pr": 0} for p_ in (0, 1, 3)] + [{"shape": "chain3", "pi": p_, "pr": r, "empty_b": True} for p_, r in ((0, 0), (2, 0), (3, 1))]
+                         + [{"shape": "chain3", "pi": p_, "pr": r, "cwd": "analysis"} for p_, r in ((0, 0), (3, 2))],
+                "thorough": [{"shape": s, "pi": k, "pr": r} for s in ("chain3", "fork3", "two-ends", "dir-output") for k in range(len(PATS)) for r in range(len(PROTECT))]
+                             + [{"shape": "chain3", "pi": k, "pr": r, "cwd": "analysis"} for k in range(len(PATS)) for r in (0, 2, 3)]},
      "timeout": {"quick": 1500, "thorough": 3000},
-     "bound": "3 targets (chain: a file that is output of one target and input of the next; fork; a target whose declared output is a directory that holds other targets' outputs and a stray file); in some shards the middle output is a zero-length file; existence of every output, --all, --force, prompt answer, spec hashing on/off, output a optionally a symlink to an unrelated file (symbolic bools); "
+     "bound": "3 targets (chain: a file that is output of one target and input of the next; fork; a target whose declared output is a directory that holds other targets' outputs and a stray file); in some shards the middle output is a zero-length file, in some gwf is invoked from a sub-directory holding files with the outputs' relative names; existence of every output, --all, --force, prompt answer, spec hashing on/off, output a optionally a symlink to an unrelated file (symbolic bools); "
               "pattern sets %s (one per shard); protect set of B from %s" % (PATS, [p[0] for p in PROTECT])},
 ]
